@@ -244,7 +244,7 @@ def judge_c01(ctx, cid, case, res, fi, ri):
         leak = (end_leak(case, fi, yhat, k - 1) + 2 * end_leak(case, fi, yhat, k) + end_leak(case, fi, yhat, k + 1)) \
             * (x[b] - x[a])
         ctx.track_worst("c01_rel_err", tol.err(got, want, sc))
-        if abs(got - want) > rel * max(sc, abs(want)) + leak:
+        if not abs(got - want) <= rel * max(sc, abs(want)) + leak:
             ok = False
             ctx.violation("interval_integral", cid, {"interval": k, "fixed": [a, b], "got": got, "want": want,
                                                      "scale": sc, "rel_tol": rel, "case": brief(case)})
@@ -258,7 +258,7 @@ def judge_c01(ctx, cid, case, res, fi, ri):
         got = I.integ(x, res, fi[0], fi[-1], case["target_rule"])
         want = I.integ(xr, yr, ri[0], ri[-1], case["ref_rule"])
         leak = sum(4 * end_leak(case, fi, yhat, k) * (x[fi[k + 1]] - x[fi[k]]) for k in range(len(fi) - 1))
-        if abs(got - want) > rel * max(tot_scale, abs(want)) + leak:
+        if not abs(got - want) <= rel * max(tot_scale, abs(want)) + leak:
             ctx.violation("total_integral", cid, {"got": got, "want": want, "scale": tot_scale, "case": brief(case)})
     return nontrivial
 
